@@ -163,6 +163,13 @@ impl Hash for P {
     }
 }
 
+impl Default for P {
+    fn default() -> P {
+        log_push("[\"default\",\"own\"]".to_string());
+        P { s: 3, f: 0, v: 7, g: G_DEFAULT }
+    }
+}
+
 // P is Copy so that types educing Copy can contain it; the hand-written Clone still logs, which is
 // how a bitwise copy (generation unchanged, no call) is told apart from a field-wise clone.
 impl Copy for P {}
@@ -844,6 +851,64 @@ pub fn run_union<T: UCase + std::fmt::Debug + PartialEq + Hash + Clone, W: Write
             Err(_) => out.rec(&format!("\"ev\":\"op\",\"t\":{},\"op\":\"panic\",\"in\":\"union\"", T::ID)),
         }
     }
+}
+
+// ---------------------------------------------------------------- bounds (C11)
+
+/// A generic wrapper that implements each trait exactly when its parameter does.
+#[derive(Debug, Clone, Copy, PartialEq, Eq, PartialOrd, Ord, Hash, Default)]
+pub struct Wrap<X>(pub X);
+
+/// An argument type that implements none of the traits.
+pub struct No;
+
+impl From<No> for P {
+    fn from(_: No) -> P {
+        unreachable!()
+    }
+}
+
+/// generic custom methods: usable whatever the field type implements
+pub fn g_fmt<X>(_: &X, f: &mut std::fmt::Formatter<'_>) -> std::fmt::Result {
+    f.write_str("g")
+}
+pub fn g_eq<X>(_: &X, _: &X) -> bool {
+    true
+}
+pub fn g_cmp<X>(_: &X, _: &X) -> Ordering {
+    Ordering::Equal
+}
+pub fn g_pcmp<X>(_: &X, _: &X) -> Option<Ordering> {
+    Some(Ordering::Equal)
+}
+pub fn g_hash<X, H: Hasher>(_: &X, _: &mut H) {}
+pub fn g_clone<X>(x: &X) -> X {
+    // never called by the bounds corpus; a bitwise duplicate keeps the signature implementable for every X
+    unsafe { std::ptr::read(x) }
+}
+pub fn g_into<X>(_: X) -> TA {
+    TA::new(3, 0, 0)
+}
+
+/// `impls!(Type: Trait)` -> bool at compile time, without a compile error when the bound does not hold
+/// (an inherent associated const shadows the blanket trait const exactly when the bound is provable).
+#[macro_export]
+macro_rules! impls {
+    ($ty:ty : $($tr:tt)+) => {{
+        struct W<T: ?Sized>(::core::marker::PhantomData<T>);
+        trait Fallback { const V: bool = false; }
+        impl<T: ?Sized> Fallback for W<T> {}
+        #[allow(dead_code)]
+        impl<T: ?Sized + $($tr)+> W<T> { const V: bool = true; }
+        <W<$ty>>::V
+    }};
+}
+
+pub fn rec_applies<W: Write>(out: &mut Out<W>, id: usize, tr: &str, t: bool, u: bool, val: bool) {
+    out.rec(&format!(
+        "\"ev\":\"op\",\"t\":{},\"op\":\"applies\",\"tr\":\"{}\",\"args\":{{\"T\":{},\"U\":{}}},\"val\":{}",
+        id, tr, t, u, val
+    ));
 }
 
 // ---------------------------------------------------------------- layout matrix (C04)
